@@ -3,6 +3,10 @@ import PyYetiVerif.Model.ApplyUf
 import PyYetiVerif.Model.ApplyUfFull
 import PyYetiVerif.Model.ExtremaMerge
 import PyYetiVerif.Model.ExtremaPsd
+import PyYetiVerif.Model.ExtremaTree
+import PyYetiVerif.Model.ExtremaHeap
+import PyYetiVerif.Model.Srs
+import PyYetiVerif.Model.SrsExt
 /-! Line protocol for C16.  Values are integers, `nan` = NaN; labels are tokens without blanks;
 segments are separated by ` ; `.
 
@@ -21,7 +25,7 @@ segments are separated by ` ; `.
 
 Doubles travel as the decimal value of their IEEE bit pattern (`b…` below).
 
-  uffull given|gauss ; n nrb nt ; rf… ; none|vec b…|mat b… ; vec b…|mat b… ; k (n·n) ; kinvE ; kinvR ;
+  uffull given|gauss ; n nrb nt ; none|scalar i|idx i…|mask 0/1… ; none|vec b…|mat b… ; vec b…|mat b… ; k (n·n) ; kinvE ; kinvR ;
          a (n·nt, row major) ; v ; d ; ruf euf duf suf ; …
         → per uf `|`, per column `;` : `a… , v… , d… , ds… , dd…`  | `singular`
           (`given`: the factorisations are the matrices sent; `gauss`: the driver inverts `k[ee]`,
@@ -33,8 +37,24 @@ Doubles travel as the decimal value of their IEEE bit pattern (`b…` below).
   calcext ; mx… ; mn… ; cases…                       → `hv hlab lv llab` | `value-error` (order keys)
   statext k ; mx… ; mn…                              → `hi lo`                          (Float)
   addmm mx mn x1 x2 hasx maxcase mincase|-           → `hv hx hlab lv lx llab`
+  psdsrs conv q eqsine ; f… ; fn… ; pf… ; F₁… ; re₁… ; im₁… ; …   → `srs_cur` per fn     (Float; C03's `vrsOne`)
+
+Nested results (one row).  A tree is a token list: `G k name₁ <tree₁> … name_k <tree_k>` (a group) or
+`B k cat₁ hv hx hlab lv lx llab … ` (a base event with k categories).
+
+  treeform d ; <tree>      → the tree after `form_extreme(doappend=d)`
+  treedel ; <tree>         → the tree after `delete_extreme()`
+  treecats ; <tree>        → `name path/…/name` per category, ` , ` separated   (`all_categories`)
+  treebases ; <tree>       → `name path cat,cat,…` per base event                (`all_base_events`, top = `Top`)
+  treenonbases ; <tree>    → `name path key,key,…` per non-base event            (`all_nonbase_events`)
+
+Object identity (one row):
+
+  heap copyX ; hv lv hv lv … ; xa xb xa xb … ; lab lab … ; ext extx|- s:LAB|l:REF s:LAB|l:REF|- ; …
+        → `vals… | xs… | labs… | cur` : the cells that existed before, after the history, and the accumulator
 -/
 open PyYetiVerif.Extrema PyYetiVerif.ApplyUf PyYetiVerif.ApplyUfFull PyYetiVerif.ExtremaPsd
+open PyYetiVerif.ExtremaTree PyYetiVerif.ExtremaHeap
 
 instance : Zero Float := ⟨0.0⟩
 instance : NatCast Float := ⟨Float.ofNat⟩
@@ -163,11 +183,19 @@ def pUfF : List String → Option (Uf Float)
 def fFullOut (o : FullOut Float) : String :=
   " , ".intercalate [fFs o.a, fFs o.v, fFs o.d, fFs o.ds, fFs o.dd]
 
+def pRfArg : List String → Option RfArg
+  | ["none"] => some .none
+  | ["scalar", i] => i.toNat?.map .scalar
+  | "idx" :: is => (is.mapM String.toNat?).map .index
+  | "mask" :: bs => some (.mask (bs.map (· == "1")))
+  | _ => none
+
 def ufFull (mode : String) (segs : List String) : String :=
   match segs with
   | dims :: rfS :: mS :: bS :: kS :: keS :: krS :: aS :: vS :: dS :: ufSegs =>
-    match (toks dims).mapM String.toNat?, (toks rfS).mapM String.toNat? with
-    | some [n, nrb, nt], some rf =>
+    match (toks dims).mapM String.toNat?, pRfArg (toks rfS) with
+    | some [n, nrb, nt], some rfa =>
+      let rf := normRf rfa
       match pArgF n mS, pArgF n bS, pFs kS, pFs keS, pFs krS, pFs aS, pFs vS, pFs dS,
           ufSegs.mapM (fun s => pUfF (toks s)) with
       | some m, some (some b), some k, some ke, some kr, some a, some v, some d, some ufs =>
@@ -266,6 +294,122 @@ def statExtOp (k : String) (segs : List String) : String :=
     | _, _ => "bad-op"
   | _, _ => "bad-op"
 
+/-! ### nested results -/
+
+abbrev CurS := Cur Int (Option Int) String
+
+partial def pTree : List String → Option (Res CurS × List String)
+  | "B" :: k :: rest => do
+    let k ← k.toNat?
+    let rec cats : Nat → List String → Option (List (String × CurS) × List String)
+      | 0, r => some ([], r)
+      | n + 1, nm :: hv :: hx :: hl :: lv :: lx :: ll :: r => do
+        let p ← pT2 [hv, hx, hl, lv, lx, ll]
+        let (cs, r') ← cats n r
+        pure ((nm, ⟨p.1, p.2⟩) :: cs, r')
+      | _, _ => none
+    let (cs, r) ← cats k rest
+    pure (.base cs, r)
+  | "G" :: k :: rest => do
+    let k ← k.toNat?
+    let rec kids : Nat → List String → Option (List (String × Res CurS) × List String)
+      | 0, r => some ([], r)
+      | n + 1, nm :: r => do
+        let (t, r1) ← pTree r
+        let (ks, r2) ← kids n r1
+        pure ((nm, t) :: ks, r2)
+      | _, _ => none
+    let (ks, r) ← kids k rest
+    pure (.group ks, r)
+  | _ => none
+
+partial def fTree : Res CurS → String
+  | .base cs => s!"B {cs.length}" ++ String.join (cs.map fun c => s!" {c.1} {fT c.2.hi} {fT c.2.lo}")
+  | .group ks => s!"G {ks.length}" ++ String.join (ks.map fun k => s!" {k.1} {fTree k.2}")
+
+def fPath (p : List String) : String := if p.isEmpty then "." else "/".intercalate p
+def fList (p : List String) : String := if p.isEmpty then "." else ",".intercalate p
+
+def treeOp (op : String) (d : Nat) (segs : List String) : String :=
+  match segs with
+  | [t] =>
+    match pTree (toks t) with
+    | some (t, []) =>
+      match op with
+      | "treeform" => fTree (form (combRow d) t)
+      | "treedel" => fTree (del t)
+      | "treecats" =>
+        let l := (allCats t []).map fun c => s!"{c.1} {fPath c.2.2}"
+        if l.isEmpty then "." else " , ".intercalate l
+      | "treebases" =>
+        let l := (allBases t "Top" []).map fun b => s!"{b.1} {fPath b.2.2} {fList (b.2.1.map (·.1))}"
+        if l.isEmpty then "." else " , ".intercalate l
+      | "treenonbases" =>
+        let l := (allNonbases t "Top" []).map fun b => s!"{b.1} {fPath b.2.2} {fList b.2.1}"
+        if l.isEmpty then "." else " , ".intercalate l
+      | _ => "bad-op"
+    | _ => "bad-op"
+  | _ => "bad-op"
+
+/-! ### object identity -/
+
+def pPairs {β : Type} (f : String → Option β) : List String → Option (List (β × β))
+  | [] => some []
+  | a :: b :: r => do pure ((← f a, ← f b) :: (← pPairs f r))
+  | _ => none
+
+def pLabArg (s : String) : Option (LabArg String) :=
+  if s.startsWith "s:" then some (.str (s.drop 2).toString)
+  else if s.startsWith "l:" then (s.drop 2).toString.toNat?.map .list
+  else none
+
+def pCall (s : String) : Option (MmRef × LabArg String × Option (LabArg String)) :=
+  match toks s with
+  | [e, x, a, b] => do
+    let e ← e.toNat?
+    let x ← if x == "-" then some none else x.toNat?.map some
+    let a ← pLabArg a
+    let b ← if b == "-" then some none else (pLabArg b).map some
+    pure (⟨e, x⟩, a, b)
+  | _ => none
+
+def heapOp (copyX : Bool) (segs : List String) : String :=
+  match segs with
+  | vS :: xS :: lS :: calls =>
+    match pPairs pv (toks vS), pPairs pv (toks xS), calls.mapM pCall with
+    | some vals, some xs, some hist =>
+      let h : Heap Int (Option Int) String := ⟨vals, xs, toks lS⟩
+      match run copyX none h none hist with
+      | none => "dangling"
+      | some (h', cur) =>
+        let fv2 := fun (p : Option Int × Option Int) => s!"{fv p.1} {fv p.2}"
+        let c := match cur with
+          | none => "none"
+          | some c => fCur (readCat h' c none)
+        " ".intercalate ((h'.vals.take vals.length).map fv2) ++ " | " ++
+          " ".intercalate ((h'.xs.take xs.length).map fv2) ++ " | " ++
+          " ".intercalate (h'.labs.take (toks lS).length) ++ " | " ++ c
+    | _, _, _ => "bad-op"
+  | _ => "bad-op"
+
+/-! ### SRS of a response PSD -/
+
+def psdSrsOp (conv q eqs : String) (segs : List String) : String :=
+  match pF conv, pF q, segs with
+  | some conv, some q, fS :: fnS :: pfS :: rest =>
+    match pFs fS, pFs fnS, pFs pfS, pTriples rest with
+    | some f, some fns, some pfs, some forces =>
+      -- `np.unique(np.hstack((freq, Fn)))`: the harness keeps Fn inside the grid, so the merged grid is `f`
+      let grid := PyYetiVerif.Srs.mergeGrid f fns
+      if grid.length != f.length then "off-grid" else
+      let pts := f.zip (psdRowAcc f.length forces)
+      fFs ((fns.zip pfs).map fun (fn, pf) =>
+        match PyYetiVerif.Srs.vrsOne q fn pts with
+        | some z => psdSrsCase conv pf q (eqs == "1") z
+        | none => 0.0 / 0.0)
+    | _, _, _, _ => "bad-op"
+  | _, _, _ => "bad-op"
+
 def answer (line : String) : String :=
   let segs := (line.splitOn ";").map (·.trimAscii.toString)
   match segs with
@@ -345,6 +489,16 @@ def answer (line : String) : String :=
     | ["merge"], body => mergeOp body
     | ["calcext"], body => calcExtOp body
     | ["statext", k], body => statExtOp k body
+    | ["treeform", d], body =>
+      match d.toNat? with
+      | some d => treeOp "treeform" d body
+      | none => "bad-op"
+    | ["treedel"], body => treeOp "treedel" 0 body
+    | ["treecats"], body => treeOp "treecats" 0 body
+    | ["treebases"], body => treeOp "treebases" 0 body
+    | ["treenonbases"], body => treeOp "treenonbases" 0 body
+    | ["heap", c], body => heapOp (c == "1") body
+    | ["psdsrs", conv, q, eqs], body => psdSrsOp conv q eqs body
     | ["addmm", mx, mn, x1, x2, hasx, mxc, mnc], [] =>
       match pv mx, pv mn, pv x1, pv x2 with
       | some mx, some mn, some x1, some x2 =>
